@@ -146,6 +146,30 @@ def d3(ctx, F):
     ctx.check(strip_generics(rem[0].callee).endswith("remove"), "C04.D3.consumed", "poll_replies:not-removed", "the pending entry is removed (a late duplicate finds nothing)", rem[0].span)
 
 
+def pending_map_discipline(ctx, F, prefix="C04.D3"):
+    """the shared pending-request table is only ever touched one entry at a time: insert (a new request) and remove (its reply, or its own
+    failure). A bulk operation — clear/drain/retain, replacing the map — drops the reply senders of requests issued by *other* clones
+    (e.g. ones that have already recovered onto a new stream), whose replies then arrive to nobody."""
+    allowed = {"new", "default", "with_capacity", "insert", "remove", "get", "contains_key", "len", "is_empty"}
+    n = 0
+    for p_, b in sorted(F.bodies.items()):
+        if b.crate != "selium":
+            continue
+        for c in b.calls():
+            if "HashMap" in c.callee and "oneshot::Sender<bytes::bytes::Bytes>" in (c.full or "") and strip_generics(c.callee).startswith("std::collections::hash::map::HashMap::"):
+                n += 1
+                ctx.touch(b)
+                okc = c.name() in allowed
+                if c.name() == "retain" and len(c.args) > 1:
+                    # purging entries whose receiver is gone (`retain(|_, tx| !tx.is_closed())`) discards nothing anyone waits for
+                    rr = flow.root(b, c.args[1], through_calls=())
+                    cb = F.bodies.get(rr[1].get("closure")) if rr[0] == "rv" and rr[1]["k"] == "agg" else None
+                    okc = cb is not None and {x.name() for x in cb.calls()} == {"is_closed"}
+                ctx.check(okc, prefix + ".pending-map", "pending-map:%s:%s" % (c.name(), p_.split("selium::")[-1][:80]),
+                          "the pending-request table is touched one entry at a time (found HashMap::%s in %s)" % (c.name(), p_), c.span)
+    ctx.check(n >= 2, prefix + ".pending-map", "pending-map:ops-missing", "the pending-request table has its insert and remove sites (%d operations found)" % n)
+
+
 def d4(ctx, F):
     h = F.one_body(r"^selium::streams::request_reply::replier::Replier::<E, D, F, ReqItem, ResItem>::handle_request::\{closure#0\}$")
     ctx.touch(h)
@@ -226,5 +250,6 @@ def run(ctx):
     d1(ctx, F)
     d2(ctx, F)
     d3(ctx, F)
+    pending_map_discipline(ctx, F)
     d4(ctx, F)
     d5(ctx, F)
